@@ -18,7 +18,7 @@ CLK = os.sysconf("SC_CLK_TCK") if hasattr(os, "sysconf") else 100
 
 
 def path_uri(path):
-    return "file://" + quote(path)
+    return "file://" + quote(path, errors="surrogateescape")     # (file names that are not UTF-8 arrive as surrogate escapes)
 
 
 class Server:
